@@ -653,6 +653,49 @@ impl Store {
             }
         }
 
+        for (_package, entries) in &self.audits.trusted {
+            for entry in entries {
+                check_criteria(
+                    &self.audits_src,
+                    &valid_criteria,
+                    &mut errors,
+                    &entry.criteria,
+                );
+            }
+        }
+        for (_name, import) in &self.config.imports {
+            for (_foreign_criteria, local_criteria) in &import.criteria_map {
+                check_criteria(
+                    &self.config_src,
+                    &valid_criteria,
+                    &mut errors,
+                    local_criteria,
+                );
+            }
+        }
+        // When locked the cached imports are used as-is, so they must only
+        // refer to criteria we know about.
+        if check_file_formatting {
+            for (_name, audits_file) in &self.imports.audits {
+                for entry in audits_file.audits.values().flatten() {
+                    check_criteria(
+                        &self.imports_src,
+                        &valid_criteria,
+                        &mut errors,
+                        &entry.criteria,
+                    );
+                }
+                for entry in audits_file.wildcard_audits.values().flatten() {
+                    check_criteria(
+                        &self.imports_src,
+                        &valid_criteria,
+                        &mut errors,
+                        &entry.criteria,
+                    );
+                }
+            }
+        }
+
         // If requested, verify that files in the store are correctly formatted
         // and have no unrecognized fields. We don't want to be reformatting
         // them or dropping unused fields while in CI, as those changes will be
